@@ -264,11 +264,31 @@ def install(E):
         return E.mk_list(list(reversed(E.iterate(x))))
 
     @nat("sorted")
-    def b_sorted(x, **kw):
+    def b_sorted(x, key=None, reverse=False):
         items = E.iterate(x)
-        if kw or not all(isinstance(i, (int, str)) for i in items):
+        keys = items if key is None else [E.call(key, [i], {}) for i in items]
+        if not all(isinstance(i, (int, str, tuple)) for i in keys) or not isinstance(reverse, bool):
             raise Unsupported("sorted of symbolic values")
-        return E.mk_list(sorted(items))
+        try:
+            order = sorted(range(len(items)), key=lambda i: keys[i], reverse=reverse)
+        except TypeError:
+            E.throw("TypeError", "'<' not supported between instances")
+        return E.mk_list([items[i] for i in order])
+
+    @nat("iter")
+    def b_iter(x):
+        return x if isinstance(x, PIter) else PIter(E.iterate(x))
+
+    @nat("next")
+    def b_next(it, *default):
+        if not isinstance(it, PIter):
+            E.throw("TypeError", "object is not an iterator")
+        if it.pos < len(it.items):
+            it.pos += 1
+            return it.items[it.pos - 1]
+        if default:
+            return default[0]
+        E.throw("StopIteration", "")
 
     @nat("sum")
     def b_sum(x, start=0):
@@ -325,6 +345,12 @@ def install(E):
             return str(x)
         if isinstance(x, int):
             return str(x)
+        if isinstance(x, Obj) and x.cls.issub(B["BaseException"]) and x.cls.lookup("__str__") is NOTSET:
+            a = x.d.get("args", ())
+            if len(a) == 0:
+                return ""
+            if len(a) == 1 and isinstance(a[0], (str, Str)):
+                return a[0]
         return OPAQUE
 
     B["repr"] = Native(lambda x=None: OPAQUE, "repr")
@@ -518,7 +544,16 @@ def install(E):
     E.float_to_int = float_to_int
     E.float_trunc = float_trunc
     B["float"] = Native(lambda *a: (_ for _ in ()).throw(Unsupported("float()")), "float")
-    B["round"] = Native(lambda *a: (_ for _ in ()).throw(Unsupported("round()")), "round")
+    def b_round(x, nd=None):
+        if isinstance(x, EnumVal):
+            x = x.v
+        if isinstance(x, (int, SymInt)) and nd is None:
+            return x
+        if isinstance(x, FloatQuot) and nd is None:
+            raise Unsupported("round() of a float quotient (banker's rounding is not modelled)")
+        raise Unsupported("round()")
+
+    B["round"] = Native(b_round, "round")
 
     # decorators referenced by name only
     for n in ("staticmethod", "classmethod", "property"):
@@ -579,6 +614,8 @@ def install_methods(E):
         return r
 
     def m_rfind(E_, o, sub):
+        if numeric(sub):
+            sub = Bytes([sub], False)
         if not isinstance(sub, Bytes) or len(sub.items) != 1:
             raise Unsupported("rfind with multi-byte needle")
         r = -1
@@ -817,6 +854,8 @@ def install_methods(E):
         return E_.mk_bytes(out, o.mutable, o.kind if o.kind != "memoryview" else "bytes")
 
     def m_b_hex(E_, o):
+        if all(isinstance(i, int) for i in o.items):
+            return bytes(o.items).hex()
         return OPAQUE
 
     for k, f in dict(find=m_find, rfind=m_rfind, index=m_index, decode=m_decode, append=m_b_append, extend=m_b_extend,
@@ -915,7 +954,44 @@ def install_methods(E):
                 err = a[1] if len(a) > 1 else kw.get("errors", "strict")
                 return E_.call(E_.builtins["bytes"], [o, enc, err], {})
             if name == "format":
+                if isinstance(o, str) and all(isinstance(x, (str, int)) for x in list(a) + list(kw.values())):
+                    try:
+                        return o.format(*a, **kw)
+                    except (ValueError, IndexError, KeyError, TypeError) as ex:
+                        E_.throw(type(ex).__name__, str(ex))
                 return OPAQUE
+            if name in ("ljust", "rjust", "zfill") and isinstance(o, Str) and a and isinstance(a[0], int) and (len(a) == 1 or (isinstance(a[1], str) and len(a[1]) == 1)):
+                fill = ord("0") if name == "zfill" else (ord(a[1]) if len(a) > 1 else 32)
+                if name == "zfill":
+                    raise Unsupported("str.zfill on symbolic text")
+                pad = [fill] * max(0, a[0] - len(o.cps))
+                return Str(list(o.cps) + pad) if name == "ljust" else Str(pad + list(o.cps))
+            if name in ("strip", "rstrip", "lstrip") and isinstance(o, Str) and (not a or a[0] is None or isinstance(a[0], str)):
+                cs = [ord(c) for c in a[0]] if a and a[0] is not None else [9, 10, 11, 12, 13, 28, 29, 30, 31, 32, 0x85, 0xA0, 0x1680] + list(range(0x2000, 0x200B)) + [0x2028, 0x2029, 0x202F, 0x205F, 0x3000]
+                cps = list(o.cps)
+                if name in ("strip", "rstrip"):
+                    while cps and E_.decide(in_set(E_, cps[-1], cs)):
+                        cps.pop()
+                if name in ("strip", "lstrip"):
+                    while cps and E_.decide(in_set(E_, cps[0], cs)):
+                        cps.pop(0)
+                return Str(cps)
+            if name == "isascii" and isinstance(o, Str) and not a:
+                acc = True
+                for c in o.cps:
+                    t = E_.compare_lt(c, 128) if hasattr(E_, "compare_lt") else (c < 128 if isinstance(c, int) else mk_bool(zi(c) < 128))
+                    if t is False:
+                        return False
+                    if t is not True:
+                        acc = t if acc is True else mk_bool(z3.And(acc.e, t.e))
+                return acc
+            if name in ("startswith", "endswith") and len(a) == 1 and isinstance(a[0], (str, Str)) and isinstance(o, (str, Str)):
+                oc = E_.seq_of(o)[1]
+                ac = E_.seq_of(a[0])[1]
+                if len(ac) > len(oc):
+                    return False
+                part = oc[:len(ac)] if name == "startswith" else oc[len(oc) - len(ac):]
+                return E_.equal(Str(list(part)), Str(list(ac)))
             if isinstance(o, str) and all(isinstance(x, (str, int)) or x is None for x in a) and not kw:
                 r = getattr(o, name)(*a)
                 if isinstance(r, list):
@@ -947,16 +1023,70 @@ def install_methods(E):
             raise Unsupported(f"str.{name} on symbolic text")
         return f
 
-    for name in ("encode", "format", "join", "lower", "upper", "strip", "isdigit", "startswith", "endswith", "split",
+    for name in ("ljust", "rjust", "zfill", "center", "isascii", "isalpha", "isalnum", "isspace", "partition", "rpartition", "splitlines", "swapcase", "casefold",
+                 "removeprefix", "removesuffix", "rfind", "rindex", "expandtabs",
+                 "encode", "format", "join", "lower", "upper", "strip", "isdigit", "startswith", "endswith", "split",
                  "replace", "rstrip", "lstrip", "find", "index", "count", "isupper", "islower", "rsplit", "title", "capitalize"):
         M[("str", name)] = str_method(name)
 
     # ---- int
-    def m_i_to_bytes(E_, o, length=1, byteorder="big", **kw):
-        raise Unsupported("int.to_bytes")
+    def m_i_to_bytes(E_, o, length=1, byteorder="big", signed=False):
+        if not isinstance(length, int) or byteorder not in ("big", "little") or not isinstance(signed, bool):
+            raise Unsupported("int.to_bytes with symbolic length / byte order")
+        if isinstance(o, EnumVal):
+            o = o.v
+        if isinstance(o, bool):
+            o = int(o)
+        if isinstance(o, int):
+            try:
+                return E_.mk_bytes(list(o.to_bytes(length, byteorder, signed=signed)), False, "bytes")
+            except OverflowError as ex:
+                E_.throw("OverflowError", str(ex))
+        x = zi(o)
+        span = 256 ** length
+        if signed:
+            E_.throw_if(mk_bool(z3.Or(x < -(span // 2), x >= span // 2)), "OverflowError", "int too big to convert")
+            x = z3.If(x < 0, x + span, x)
+        else:
+            E_.throw_if(mk_bool(x < 0), "OverflowError", "can't convert negative int to unsigned")
+            E_.throw_if(mk_bool(x >= span), "OverflowError", "int too big to convert")
+        items = [mk_int((x / (256 ** i)) % 256, 8) for i in range(length)]
+        if byteorder == "big":
+            items.reverse()
+        return E_.mk_bytes(items, False, "bytes")
+
+    def m_i_from_bytes(E_, b, byteorder="big", signed=False):
+        if byteorder not in ("big", "little") or not isinstance(signed, bool):
+            raise Unsupported("int.from_bytes with symbolic byte order")
+        items = list(E_.iterate(b))
+        if byteorder == "big":
+            items.reverse()
+        if all(isinstance(i, int) for i in items):
+            return int.from_bytes(bytes(items), "little", signed=signed)
+        acc = z3.IntVal(0)
+        for i, v in enumerate(items):
+            acc = acc + zi(v) * (256 ** i)
+        if signed and items:
+            span = 256 ** len(items)
+            acc = z3.If(acc >= span // 2, acc - span, acc)
+        return mk_int(z3.simplify(acc))
+
+    def m_i_bit_length(E_, o):
+        if isinstance(o, EnumVal):
+            o = o.v
+        if isinstance(o, int):
+            return o.bit_length()
+        x = zi(o)
+        a = z3.If(x < 0, -x, x)
+        E_.require(mk_bool(a < 2 ** 64), "bit_length of an integer beyond 64 bits")
+        acc = z3.IntVal(0)
+        for k in range(64):
+            acc = acc + z3.If(a >= 2 ** k, 1, 0)
+        return mk_int(acc)
 
     M[("int", "to_bytes")] = m_i_to_bytes
-    M[("int", "bit_length")] = lambda E_, o: o.bit_length() if isinstance(o, int) else (_ for _ in ()).throw(Unsupported("bit_length"))
+    M[("int", "from_bytes")] = m_i_from_bytes
+    M[("int", "bit_length")] = m_i_bit_length
 
 
 # ====================================================================================== stubs
@@ -1044,6 +1174,113 @@ def install_stubs(E):
         return m
 
     S["math"] = mk_math
+
+    def mk_struct(E_):
+        m = Module("struct")
+        m.ns["__name__"] = "struct"
+        err = Cls("error", [B["Exception"]], {}, module="struct")
+        m.ns["error"] = err
+        SIZES = {"B": (1, False), "b": (1, True), "H": (2, False), "h": (2, True), "I": (4, False), "i": (4, True),
+                 "L": (4, False), "l": (4, True), "Q": (8, False), "q": (8, True), "?": (1, False), "x": (1, None), "c": (1, None)}
+
+        def parse(fmt):
+            if isinstance(fmt, Bytes):
+                fmt = bytes(fmt.items).decode("ascii") if all(isinstance(i, int) for i in fmt.items) else None
+            if not isinstance(fmt, str):
+                raise Unsupported("struct format is not a concrete string")
+            order = "little"
+            body = fmt.replace(" ", "")
+            if body[:1] in "<>!=@":
+                if body[0] == "@":
+                    raise Unsupported("struct native alignment")
+                order = "little" if body[0] in "<" else "big"
+                if body[0] == "=":
+                    order = "little"
+                body = body[1:]
+            else:
+                raise Unsupported("struct format without an explicit byte order (native alignment)")
+            codes = []
+            num = ""
+            for ch in body:
+                if ch.isdigit():
+                    num += ch
+                    continue
+                if ch not in SIZES or ch == "c":
+                    raise Unsupported(f"struct format code {ch!r}")
+                codes.extend([ch] * (int(num) if num else 1))
+                num = ""
+            return order, codes
+
+        def calcsize(fmt):
+            return sum(SIZES[c][0] for c in parse(fmt)[1])
+
+        def pack(fmt, *vals):
+            order, codes = parse(fmt)
+            out = []
+            vals = list(vals)
+            if len([c for c in codes if c != "x"]) != len(vals):
+                E_.throw(err, "pack expected a different number of items")
+            for c in codes:
+                size, signed = SIZES[c]
+                if c == "x":
+                    out.append(0)
+                    continue
+                v = vals.pop(0)
+                if c == "?":
+                    t = E_.truth(v)
+                    out.append(int(t) if isinstance(t, bool) else mk_int(z3.If(t.e, 1, 0), 8))
+                    continue
+                if isinstance(v, EnumVal):
+                    v = v.v
+                if not numeric(v):
+                    E_.throw(err, "required argument is not an integer")
+                span = 256 ** size
+                lo, hi = (-(span // 2), span // 2) if signed else (0, span)
+                if isinstance(v, (int, bool)):
+                    if not (lo <= v < hi):
+                        E_.throw(err, "argument out of range")
+                else:
+                    E_.throw_if(mk_bool(z3.Or(zi(v) < lo, zi(v) >= hi)), err, "argument out of range")
+                b = E_.methods[("int", "to_bytes")](E_, v, size, order, signed)
+                out.extend(b.items)
+            return E_.mk_bytes(out, False, "bytes")
+
+        def unpack_from(fmt, buf, offset=0):
+            order, codes = parse(fmt)
+            items = list(E_.iterate(buf))
+            off = E_.concretize(offset)
+            need = sum(SIZES[c][0] for c in codes)
+            if off < 0:
+                off += len(items)
+            if off < 0 or len(items) - off < need:
+                E_.throw(err, "unpack_from requires a larger buffer")
+            out = []
+            for c in codes:
+                size, signed = SIZES[c]
+                part = items[off:off + size]
+                off += size
+                if c == "x":
+                    continue
+                v = E_.methods[("int", "from_bytes")](E_, Bytes(part, False), order, bool(signed))
+                if c == "?":
+                    v = E_.b_not(E_.equal(v, 0))
+                out.append(v)
+            return tuple(out)
+
+        def unpack(fmt, buf):
+            order, codes = parse(fmt)
+            items = list(E_.iterate(buf))
+            if len(items) != sum(SIZES[c][0] for c in codes):
+                E_.throw(err, "unpack requires a buffer of the exact size")
+            return unpack_from(fmt, buf, 0)
+
+        m.ns["calcsize"] = Native(calcsize, "struct.calcsize")
+        m.ns["pack"] = Native(pack, "struct.pack")
+        m.ns["unpack"] = Native(unpack, "struct.unpack")
+        m.ns["unpack_from"] = Native(unpack_from, "struct.unpack_from")
+        return m
+
+    S["struct"] = mk_struct
 
     def mk_itertools(E_):
         m = Module("itertools")
